@@ -185,6 +185,10 @@ def spellings(tier: str) -> List[Dict[str, Any]]:
     add("s3-tbl-slash", spelling="s3-prefix-trailing-slash", loc="tbl/", **s3)
     add("s3-slash-tbl", spelling="s3-prefix-leading-slash", loc="/tbl", **s3)
     add("s3-data", spelling="s3-prefix-of-data", loc="data", **s3)
+    # the process runs in a non-UTC host time zone (object / file ages must not depend on it)
+    add("s3-tbl-tz+14", spelling="s3-prefix-host-tz-utc+14", loc="tbl", tz="XXX-14", **s3)
+    add("s3-tbl-tz-8", spelling="s3-prefix-host-tz-utc-8", loc="tbl", tz="YYY8", **s3)
+    add("relative-tz+14", spelling="relative-host-tz-utc+14", layout="rel", loc="tbl", tz="XXX-14", **one)
     if not q:
         add("s3-d", spelling="s3-prefix-of-data", loc="d", **s3)
         add("s3-metadata", spelling="s3-prefix-of-metadata", loc="metadata", **s3)
